@@ -321,6 +321,48 @@ Theorem C10_coincident_means_same_point : forall bs p q,
 Proof. exact dist2_zero_bounded. Qed.
 Print Assumptions C10_coincident_means_same_point.
 
+(* DOCUMENTED BOUNDARY (round 4).  Agent.remove() of a plain mesa.Agent sitting in a LEGACY space (Mesa's Agent.remove only
+   deregisters from the model and tells users to extend it): after any history the call succeeds, NO field of the space
+   changes - the agent keeps its entry, its pos, its cached row, it is still listed by space.agents - and every later
+   space operation answers and acts exactly as if the call had not happened.  The property's "agents placed and not
+   removed" means removed FROM THE SPACE (remove_agent); under that reading the statement covers this case and holds *)
+Theorem C10_legacy_agent_remove_leaves_space_entry : forall c ops a,
+  let s := l_final c l_init ops in
+  let s' := fst (lstep c s (LAgentRemove a)) in
+  snd (lstep c s (LAgentRemove a)) = Some (Ok []) /\
+  l_a2i s' = l_a2i s /\ l_i2a s' = l_i2a s /\ l_points s' = l_points s /\ l_pos s' = l_pos s /\
+  In a (l_gone s') /\
+  (In a (akeys (l_a2i s)) -> In a (akeys (l_a2i s'))) /\
+  (forall o, snd (lstep c s' o) = snd (lstep c s o) /\ l_pos (fst (lstep c s' o)) = l_pos (fst (lstep c s o)) /\
+             akeys (l_a2i (fst (lstep c s' o))) = akeys (l_a2i (fst (lstep c s o)))).
+Proof. exact legacy_agent_remove_leaves_space_entry. Qed.
+Print Assumptions C10_legacy_agent_remove_leaves_space_entry.
+
+(* DOCUMENTED BOUNDARY (round 4).  place_agent of an agent that is ALREADY placed (the decorator only warns) is an
+   assignment like move_agent: same answer, same new pos, same place in space.agents, no second entry; it differs only
+   in dropping the cache instead of patching it.  So "position = last assigned" and "agents = placed and not removed"
+   cover it (C10_legacy_position_last_assigned / C10_legacy_agents_order now range over such histories too) *)
+Theorem C10_legacy_replace_is_move : forall c ops a p,
+  let s := l_final c l_init ops in
+  In a (akeys (l_a2i s)) -> dim_ok (lc_bounds c) p = true ->
+  snd (lstep c s (LPlace a p)) = snd (lstep c s (LMove a p)) /\
+  l_pos (fst (lstep c s (LPlace a p))) = l_pos (fst (lstep c s (LMove a p))) /\
+  akeys (l_a2i (fst (lstep c s (LPlace a p)))) = akeys (l_a2i s) /\
+  NoDup (akeys (l_a2i (fst (lstep c s (LPlace a p))))) /\
+  (snd (lstep c s (LPlace a p)) = Some (Ok []) -> l_points (fst (lstep c s (LPlace a p))) = None).
+Proof. exact legacy_replace_is_move. Qed.
+Print Assumptions C10_legacy_replace_is_move.
+
+Example C10_round4_legacy_example :
+  let c := {| lc_bounds := [(-16, 48); (0, 64)]; lc_torus := false |} in
+  let ops := [LPlace 1 [0; 16]; LPlace 2 [16; 16]; LNeighbors [0; 16] 16 true; LAgentRemove 1; LAgentRemove 1;
+              LNeighbors [0; 16] 16 true; LPlace 1 [32; 48]; LNeighbors [0; 16] 16 true; LPlace 2 [200; 0]] in
+  let s := l_final c l_init ops in
+  akeys (l_a2i s) = [1; 2] /\ l_pos s = [(1, [32; 48]); (2, [16; 16])] /\ l_gone s = [1] /\
+  map (fun o => firstn 3 o) (l_run c l_init ops)
+  = [[-9; 1; 1]; [-9; 2; 1]; [0; 1; 2]; [-9; 2; 1]; [-9; 2; 1]; [0; 1; 2]; [-9; 2; 1]; [0; 2; -9]; [-1; 1; -9]].
+Proof. vm_compute. repeat split; reflexivity. Qed.
+
 (* three agents on one point and one elsewhere: agent 3 asking for 1 neighbour may get 2 (self dropped by argpartition),
    or 1; order of space.agents / model.agents; remove and remove_all *)
 Example C10_round3_example :
